@@ -99,9 +99,9 @@ rows=[]
 for f in sorted(glob.glob(root+'/*/meta.json')):
     m=json.load(open(f)); id=os.path.basename(os.path.dirname(f))
     rows.append((id,m))
-out=["# Seeded changes","","Deliberately broken versions of jech/storrent, written by independent sub-agents that saw only the property text.  Each directory holds `patch.diff`, the agent's demonstration `zz_demo_test.go` (fails with the change, passes without) and `meta.json`.","","| id | property | what the change does | needs | confirmed | caught by `./check <property> quick` | what the check said |","|---|---|---|---|---|---|---|"]
+out=["# Seeded changes","","Deliberately broken versions of jech/storrent, written by independent sub-agents that saw only the property text.  Each directory holds `patch.diff`, the agent's demonstration `zz_demo_test.go` (fails with the change, passes without) and `meta.json`.","","| id | property | what the change does | needs | confirmed | caught at first run (machinery of that time) | caught by `./check <property> quick` (final machinery) | what the check said |","|---|---|---|---|---|---|---|---|"]
 for id,m in rows:
-    out.append("| %s | %s | %s | %s | %s | %s | %s |"%(id,m.get('property'),str(m.get('summary','')).replace('|','/'),str(m.get('needs','')).replace('|','/')[:160],m.get('confirmed'),"%s (%s)"%(m.get('caught'),m.get('check_run','')),str(m.get('check_says','')).replace('|','/')[:200]))
+    out.append("| %s | %s | %s | %s | %s | %s | %s | %s |"%(id,m.get('property'),str(m.get('summary','')).replace('|','/'),str(m.get('needs','')).replace('|','/')[:160],m.get('confirmed'),(m.get('first_run') or {}).get('caught'),"%s (%s)"%(m.get('caught'),m.get('check_run','')),str(m.get('check_says','')).replace('|','/')[:200]))
 open(root+'/README.md','w').write("\n".join(out)+"\n")
 print(len(rows),"seeded changes")
 EOF
